@@ -9,6 +9,8 @@ CONSTANTS
   PriorTable = "persist_user_only"
   ViewSpace = "prior_mode"
   DerivedLookup = "derived"
+  ObsMerge = "always"
+  ObsParams <- MCObsParams
   Record = TRUE
   Export = "sim"
   Params <- MCParams
@@ -24,6 +26,7 @@ CONSTANTS
   UserPriors <- MCUserPriors
   K <- MCK
 INVARIANT SpacesAgree
+INVARIANT ViewsReadable
 INVARIANT OrderIsDeclarationOrder
 CONSTRAINT Emit
 CHECK_DEADLOCK FALSE
